@@ -44,9 +44,12 @@ func (p *packageParse) clear() {
 
 // parse 返回一个或者多个完成的包
 func (p *packageParse) parse(data []byte) ([]*Message, error) {
-	msgs, err := p.unpack(data)
-	for _, msg := range msgs {
+	unpackMsgs, err := p.unpack(data)
+	msgs := make([]*Message, 0, len(unpackMsgs))
+	for _, msg := range unpackMsgs {
+		msgs = append(msgs, msg)
 		if completeMsg, ok := p.completePack(msg); ok {
+			// 合并完成的包紧跟在最后一个分包后面 保证同一次读取中后续报文的顺序
 			msgs = append(msgs, completeMsg)
 		}
 	}
